@@ -27,6 +27,8 @@ Lists == UNION { UNION { { ListOf(t, a, xs) : xs \in SweepXS(a) } : a \in 1..3 }
 Pt(t, pos) == [t |-> t, pos |-> pos]
 MaskA == [shape |-> <<6, 5, 7>>, zero |-> { <<i, j, k>> : i \in 0..5, j \in 0..4, k \in 0..6 } \ { <<i, j, k>> : i \in 2..3, j \in 1..2, k \in 2..4 }]
 MaskB == [shape |-> <<4, 8, 5>>, zero |-> { <<i, j, k>> : i \in 0..1, j \in 0..7, k \in 0..4 }]
+\* mask of a tomogram that holds no particle (all zero: whatever is looked up in it is removed)
+MaskC == [shape |-> <<7, 8, 7>>, zero |-> { <<i, j, k>> : i \in 0..6, j \in 0..7, k \in 0..6 }]
 
 SmallOps == { [name |-> "oob", kind |-> "center", box |-> 0],
               [name |-> "oob", kind |-> "whole", box |-> 2],
@@ -38,9 +40,19 @@ SmallOps == { [name |-> "oob", kind |-> "center", box |-> 0],
               [name |-> "points", pts |-> { Pt(1, <<0, 16, 24>>), Pt(1, <<24, 0, 24>>), Pt(1, <<24, 16, 0>>),
                                             Pt(2, <<16, 16, 16>>) }, r |-> 20],
               [name |-> "mask", tl |-> {1, 2}, masks |-> (1 :> MaskA) @@ (2 :> MaskB)],
-              [name |-> "mask", tl |-> {1}, masks |-> (1 :> MaskA)] }
+              [name |-> "mask", tl |-> {1}, masks |-> (1 :> MaskA)],
+              [name |-> "mask", tl |-> {1, 2, 3}, masks |-> (1 :> MaskA) @@ (2 :> MaskB) @@ (3 :> MaskC)] }
 
-SmallCases == { [id |-> 0, ps |-> l, dims |-> SmallDims, op |-> o] : l \in Lists, o \in SmallOps }
+\* two calls on the same list with the same argument objects
+SmallChains == { <<[name |-> "oob", kind |-> "whole", box |-> 4], [name |-> "oob", kind |-> "center", box |-> 0]>>,
+                 <<[name |-> "oob", kind |-> "whole", box |-> 2], [name |-> "oob", kind |-> "whole", box |-> 2]>>,
+                 <<[name |-> "oob", kind |-> "center", box |-> 0], [name |-> "trim", start |-> <<2, 1, 2>>, end |-> <<5, 5, 6>>],
+                   [name |-> "oob", kind |-> "whole", box |-> 2]>> }
+
+\* dimension table with a tomogram that holds no particle
+SmallDims3 == SmallDims @@ (3 :> <<7, 8, 7>>)
+SmallCases == { [id |-> 0, ps |-> l, dims |-> SmallDims3, ops |-> <<o>>] : l \in Lists, o \in SmallOps }
+               \cup { [id |-> 0, ps |-> l, dims |-> SmallDims3, ops |-> ch] : l \in Lists, ch \in SmallChains }
 
 \* JSON form of a case, for the driver (the interpretation needs the inputs, too)
 OpJ(o) == CASE o.name = "points" -> [name |-> "points", r |-> o.r,
@@ -48,11 +60,11 @@ OpJ(o) == CASE o.name = "points" -> [name |-> "points", r |-> o.r,
             [] o.name = "mask" -> [name |-> "mask", tl |-> SetToSeq(o.tl),
                                    masks |-> SetToSeq({ <<t, o.masks[t].shape, SetToSeq(o.masks[t].zero)>> : t \in DOMAIN o.masks })]
             [] OTHER -> o
-CaseJ == [id |-> Case.id, ps |-> PJ(Case.ps),
-          dims |-> SetToSeq({ <<t, Case.dims[t][1], Case.dims[t][2], Case.dims[t][3]>> : t \in DOMAIN Case.dims }),
-          op |-> OpJ(Case.op)]
+CaseJ == [id |-> cs.id, ps |-> PJ(cs.ps),
+          dims |-> SetToSeq({ <<t, cs.dims[t][1], cs.dims[t][2], cs.dims[t][3]>> : t \in DOMAIN cs.dims }),
+          ops |-> [k \in DOMAIN cs.ops |-> OpJ(cs.ops[k])]]
 EmitBoth == \/ ~done
-            \/ PrintT(<<"SMALL", ToJson([case |-> CaseJ, ps |-> PJ(res.ps), status |-> res.status, amb |-> res.amb])>>)
+            \/ PrintT(<<"SMALL", ToJson([case |-> CaseJ, step |-> i, ps |-> PJ(res.ps), status |-> res.status, amb |-> res.amb])>>)
 
 \* ---- file scope
 PsOf(x) == [k \in DOMAIN x |-> P(x[k][1], x[k][2], <<x[k][3], x[k][4], x[k][5]>>, <<x[k][6], x[k][7], x[k][8]>>)]
@@ -70,6 +82,6 @@ OpOf(o) == CASE o.name = "points" ->
              [] o.name = "trim" -> [name |-> "trim", start |-> o.start, end |-> o.end]
              [] OTHER -> o
 FileCases == LET recs == ndJsonDeserialize(IOEnv.CASE_FILE)
-             IN  { [id |-> recs[k].id, ps |-> PsOf(recs[k].ps), dims |-> DimsOf(recs[k].dims), op |-> OpOf(recs[k].op)] :
-                   k \in DOMAIN recs }
+             IN  { [id |-> recs[k].id, ps |-> PsOf(recs[k].ps), dims |-> DimsOf(recs[k].dims),
+                     ops |-> [m \in DOMAIN recs[k].ops |-> OpOf(recs[k].ops[m])]] : k \in DOMAIN recs }
 =============================================================================
